@@ -347,6 +347,8 @@ class VecInterp(Interp):
             return {"__iter": a[0], "pos": 0}
         if re.search(r"IntoIterator for &'\w+ (mut )?(\[T\]|alloc::vec::Vec<T, A>|\[T; N\])>::into_iter$", c) and isinstance(a[0], list):
             return {"__iter": a[0], "pos": 0, "mut": " mut " in c}
+        if re.search(r"Iterator::rev$", c) and isinstance(a[0], dict) and "__iter" in a[0] and not a[0].get("mut"):
+            return {"__iter": list(a[0]["__iter"][a[0]["pos"]:])[::-1], "pos": 0}
         if re.search(r"Iterator::rev$", c) and isinstance(a[0], dict) and a[0].get("__adt", "").endswith("ops::range::Range"):
             return {"__rev": a[0]}
         if re.search(r"Iterator for core::ops::range::Range<\w+>>::next$", c):
